@@ -264,6 +264,67 @@ def r2(ctx):
                 rule.fail("%s|unjustified:%s" % (arm, s_), "the %s arm yields %s, which is not justified by a distance-bit test" % (arm, s_), loc=loc)
     if sites < 3:
         rule.fail("yields|floor", "only %d yield sites found outside Start (3 confirmed by hand)" % sites)
+    # state progression: each phase hands over exactly the index it has just reached, and zooming out starts from the bottom
+    n_assign = 0
+    for blk in nx.blocks:
+        if blk.idx not in nx.live_blocks():
+            continue
+        for s in blk.stmts:
+            if not (s.k == "a" and s.lhs.local == 1 and "state" in s.lhs.field_names()):
+                continue
+            arm = [n for n in arm_entry if must_pass(nx, [blk.idx], via_edges=[arm_entry[n]])]
+            arm = arm[0] if len(arm) == 1 else "?"
+            e = prov.rvalue(s.rv, blk.idx)
+            for x in roots(e):
+                if not (x[0] == "agg" and "ClosestBucketsIterState::" in x[1]):
+                    rule.fail("%s|state-unrecognised" % arm, "unrecognised state assignment in the %s arm: %s" % (arm, fmt_short(x)), loc=nx.loc(s.line))
+                    continue
+                new_state = x[1].split("::")[-1]
+                n_assign += 1
+                payload = x[2][0][1] if x[2] else None
+                pr = roots(payload) if payload is not None else set()
+                ps = sorted(fmt_short(y) for y in pr)
+
+                def from_scan(which):
+                    return pr and all(y[0] == "field" and y[2] == "0" and y[1][0] == "as" and y[1][1][0] == "call" and y[1][1][1] == which for y in pr)
+                if arm == "Start":
+                    okk = new_state == "ZoomIn" and ps == ["self.state.0"]
+                    want = "ZoomIn(the start index)"
+                elif arm == "ZoomIn" and new_state == "ZoomIn":
+                    okk = from_scan(nin)
+                    want = "ZoomIn(index found by next_in)"
+                elif arm == "ZoomIn" and new_state == "ZoomOut":
+                    okk = pr and all(y[0] == "agg" and y[1].endswith("BucketIndex::BucketIndex") and const_int_of(y[2][0][1]) == 0 for y in pr)
+                    want = "ZoomOut(BucketIndex(0)): zooming out scans upwards from the bottom bucket"
+                elif arm == "ZoomOut" and new_state == "ZoomOut":
+                    okk = from_scan(nout)
+                    want = "ZoomOut(index found by next_out)"
+                elif arm == "ZoomOut" and new_state == "Done":
+                    okk = True
+                    want = "Done"
+                else:
+                    okk = False
+                    want = "a transition of the Start -> ZoomIn -> ZoomOut -> Done walk"
+                rule.check(okk, "%s arm: state := %s(%s)" % (arm, new_state, ", ".join(ps)), "%s|state:=%s" % (arm, new_state),
+                           "in the %s arm the iterator continues from %s(%s); expected %s - buckets between would be skipped or repeated" % (
+                               arm, new_state, ", ".join(ps), want), loc=nx.loc(s.line))
+    if n_assign < 5:
+        rule.fail("state|floor", "only %d state assignments found (5 confirmed by hand)" % n_assign)
+    # on leaving ZoomIn, bucket 0 is skipped only if it was already visited (current index 0) or its bit is set
+    rec = [(bi, t) for bi, t in nx.calls() if t.callee() == nx.path]
+    for bi, t in rec:
+        visited = []
+        for sbi, st, e in g.switches():
+            bt = bit_test(e)
+            f, tr = g.bool_edges(sbi)
+            if bt is not None and const_int_of(bt[0]) == 0:
+                visited.append((sbi, f if bt[1] else tr))
+            c = comparison(e)
+            if c and c[0] in ("==", "!=") and const_int_of(c[2]) == 0 and "BucketIndex::get(self.state.0)" == fmt_short(c[1]):
+                visited.append((sbi, tr if c[0] == "==" else f))
+        r = nx.reachable(arm_entry["ZoomIn"][1], removed_edges=visited)
+        rule.check(bool(visited) and bi not in r, "bucket 0 is passed over on leaving ZoomIn only if already visited (index 0) or bit 0 is set",
+                   "ZoomIn|skip-bucket-0", "on leaving ZoomIn the iterator can skip bucket 0 although it was not yielded before", loc=nx.loc(t.line))
     # Start yields the index of the target's own bucket: ClosestBucketsIter::new
     new = facts.one(re.escape(KB) + "ClosestBucketsIter::new")
     rule.analysed(new)
